@@ -107,6 +107,7 @@ func init() {
 		}
 		c.Floor("exits of the inbound handler that took a push/pull slot", nexit, 1)
 
+		checkAliveVersions(c, "C09")
 		pp := c.MustFunc("Memberlist.pushPullNode")
 		xp := c.flow(pp, map[string]string{})
 		n2 := c.flowMay(xp, "C09/outbound/merge-after-read", "initiating side: the merge is reached only after the complete exchange returned without error, with exactly what it returned",
